@@ -284,4 +284,128 @@ class Parallel(Facet):
                 pass
 
 
-FACETS = [Sequential(), Parallel()]
+class GPRuns(Facet):
+    """Step compositions that re-present individuals to the evaluator (elitism, tournament,
+    identity): across a whole GP run every Individual object is evaluated exactly once and
+    the counter equals the number of fitness-function invocations."""
+
+    name = "gp_runs_evaluate_each_individual_once"
+
+    def budget(self, tier):
+        return (30, 6) if tier == "quick" else (200, 16)
+
+    def strategy(self, tier):
+        from vk.props.c14 import gp_steps
+
+        return st.integers(2, 8).flatmap(
+            lambda pop: st.builds(
+                lambda step, gens, seed, par, multi: {"popsize": pop, "step": step, "gens": gens, "seed": seed, "parallel": par, "multi": multi},
+                gp_steps(pop),
+                st.integers(1, 4),
+                st.integers(0, 2**31),
+                st.sampled_from([False, False, False, True]),
+                st.booleans(),
+            ),
+        )
+
+    def run(self, case, rec):
+        import hashlib
+
+        from geneticengine.algorithms.gp.gp import GeneticProgramming
+        from geneticengine.evaluation.budget import SearchBudget
+        from geneticengine.evaluation.parallel import ParallelEvaluator
+        from geneticengine.evaluation.recorder import SearchRecorder
+        from geneticengine.evaluation.sequential import SequentialEvaluator
+        from geneticengine.evaluation.tracker import MultiObjectiveProgressTracker, SingleObjectiveProgressTracker
+        from geneticengine.problems import MultiObjectiveProblem, SingleObjectiveProblem
+        from vk.props.c15 import make_world
+        from vk.refmodel import canon, canon_str
+        from vk.steps import build_step, step_str
+
+        par = case["parallel"] and case["popsize"] <= 4 and case["gens"] <= 2
+        _reset_pathos()  # cached pool workers were forked before this case's grammar module existed
+        w = make_world(case["seed"])
+        fd, path = tempfile.mkstemp(prefix="vk_c13g_", suffix=".log")
+        os.close(fd)
+        try:
+            info = w.info
+
+            seen_programs = []  # kept alive so that ids are not reused
+
+            def value(p):
+                seen_programs.append(p)
+                with open(path, "a") as f:
+                    f.write("x\n")
+                return float(hashlib.sha256(canon_str(canon(p, info)).encode()).digest()[0] % 9)
+
+            if case["multi"]:
+                problem = MultiObjectiveProblem([False, True], lambda p: [value(p), 1.0])
+            else:
+                problem = SingleObjectiveProblem(value)
+            registered = []
+
+            class Spy(SearchRecorder):
+                def register(self, tracker, individual, problem, is_best):
+                    registered.append(individual)
+
+            class GenBudget(SearchBudget):
+                def __init__(self, g):
+                    self.g, self.n = g, 0
+
+                def is_done(self, tracker):
+                    self.n += 1
+                    return self.n > self.g
+
+            ev = ParallelEvaluator() if par else SequentialEvaluator()
+            T = MultiObjectiveProgressTracker if case["multi"] else SingleObjectiveProgressTracker
+            tracker = T(problem, ev, recorders=[Spy()])
+            gp = GeneticProgramming(problem=problem, budget=GenBudget(case["gens"]), representation=w.rep, random=w.random, tracker=tracker, population_size=case["popsize"], step=build_step(case["step"]))
+            rec.label("parallel" if par else "sequential", "multi" if case["multi"] else "single")
+            rec.sample({"step": step_str(case["step"]), "popsize": case["popsize"], "gens": case["gens"], "parallel": par}, limit=2)
+            try:
+                gp.search()
+            except Exception as e:  # noqa: BLE001
+                rec.discard()
+                rec.label("discarded:" + type(e).__name__)
+                return
+            with open(path) as f:
+                invocations = sum(1 for _ in f)
+            distinct = len({id(i) for i in registered})
+            desc = f"GP(population_size={case['popsize']}, {case['gens']} generations, step={step_str(case['step'])}, {'parallel' if par else 'sequential'} evaluator, {'multi' if case['multi'] else 'single'}-objective)"
+            # tree genotype == phenotype object and the start symbol is abstract (crossover builds fresh
+            # trees), so one program object belongs to one individual: no object may be evaluated twice.
+            # (Individuals evaluated inside a step but never selected are legitimately not registered.)
+            twice = len(seen_programs) - len({id(x) for x in seen_programs}) if not par else 0
+            if twice:
+                rec.fail(
+                    "C13/gp-run/sequential/individual-evaluated-more-than-once",
+                    f"{desc}: {twice} fitness invocation(s) were for a program object that had been evaluated before ({invocations} invocations, {distinct} individuals registered)",
+                )
+            elif ev.number_of_evaluations() != invocations:
+                rec.fail(
+                    f"C13/gp-run/{'parallel' if par else 'sequential'}/counter-differs-from-invocations",
+                    f"{desc}: counter {ev.number_of_evaluations()}, invocations {invocations}",
+                )
+            if len(registered) > distinct + 1:
+                rec.nontrivial(case)
+        finally:
+            w.cleanup()
+            _reset_pathos()
+            try:
+                os.unlink(path)
+            except OSError:
+                pass
+
+
+def _reset_pathos():
+    """pathos caches its worker pools per process; workers forked for an earlier case cannot
+    unpickle functions that refer to a grammar module created later (the map would block)."""
+    try:
+        from pathos.helpers import shutdown
+
+        shutdown()
+    except Exception:  # noqa: BLE001
+        pass
+
+
+FACETS = [Sequential(), Parallel(), GPRuns()]
